@@ -465,8 +465,12 @@ func (e *EdgeQuery) findEdgesInternal(target distanceTarget, opts *queryOptions)
 	// distanceLimit < maxError, this reduces the distance limit to 0,
 	// i.e. all remaining candidate cells and edges can safely be discarded.
 	// (This is how IsDistanceLess() and friends are implemented.)
+	// The target is always told the error permitted for this call, so that
+	// a target object reused from an earlier call does not keep the error
+	// that call allowed.
+	targetAcceptsMaxError := e.target.setMaxError(opts.maxError)
 	targetUsesMaxError := opts.maxError != target.distance().zero().chordAngle() &&
-		e.target.setMaxError(opts.maxError)
+		targetAcceptsMaxError
 
 	// Note that we can't compare maxError and distanceLimit directly
 	// because one is a Delta and one is a Distance. Instead we subtract them.
